@@ -18,6 +18,7 @@ import (
 	"perkeep.org/pkg/blob"
 	"perkeep.org/pkg/blobserver"
 	"perkeep.org/pkg/blobserver/blobpacked"
+	"perkeep.org/pkg/blobserver/diskpacked"
 	"perkeep.org/pkg/blobserver/localdisk"
 	"perkeep.org/pkg/blobserver/memory"
 	"perkeep.org/pkg/sorted"
@@ -30,7 +31,7 @@ import (
 
 // lower is the durable state of one blobpacked store: the three harness-owned layers.
 // kind "" = perkeep's memory blob stores and memory KV; "disk" = two localdisk stores and a
-// leveldb file under one scratch directory.
+// leveldb file under one scratch directory; "diskpacked" = the same with a diskpacked large.
 type lower struct {
 	kind  string
 	small blobserver.Storage
@@ -43,7 +44,7 @@ func newLower(kind string) (*lower, error) {
 	switch kind {
 	case "":
 		return &lower{small: &memory.Storage{}, large: &memory.Storage{}, meta: sorted.NewMemoryKeyValue()}, nil
-	case "disk":
+	case "disk", "diskpacked":
 		lw := &lower{kind: kind, dir: ev.Scratch("c04-lower")}
 		var err error
 		fail := func(err error) (*lower, error) {
@@ -58,7 +59,12 @@ func newLower(kind string) (*lower, error) {
 		if lw.small, err = localdisk.New(filepath.Join(lw.dir, "small")); err != nil {
 			return fail(err)
 		}
-		if lw.large, err = localdisk.New(filepath.Join(lw.dir, "large")); err != nil {
+		if kind == "diskpacked" {
+			lw.large, err = diskpacked.New(filepath.Join(lw.dir, "large"))
+		} else {
+			lw.large, err = localdisk.New(filepath.Join(lw.dir, "large"))
+		}
+		if err != nil {
 			return fail(err)
 		}
 		if lw.meta, err = sorted.NewKeyValue(jsonconfig.Obj{"type": "leveldb", "file": filepath.Join(lw.dir, "meta.leveldb")}); err != nil {
@@ -73,8 +79,11 @@ func newLower(kind string) (*lower, error) {
 // process-global hub table (blobserver.GetHub), so the shells of finished incarnations stay
 // reachable; emptied, they are small.
 func (lw *lower) release() {
-	if lw.kind == "disk" {
+	if lw.kind != "" {
 		lw.meta.Close()
+		if c, ok := lw.large.(io.Closer); ok {
+			c.Close()
+		}
 		os.RemoveAll(lw.dir)
 		return
 	}
